@@ -16,6 +16,9 @@ Oracle (real code only; formulas typed here from the textbook definitions, const
   warning iff not neutral (outside the stated tolerance band), charges of the dict form from a hand-written table;
   A = (2 pi N_A rho b0)^(1/2) (e^2/(4 pi eps0 eps_r k T))^(3/2), B = (2 e^2 N_A rho b0/(eps0 eps_r k T))^(1/2) on every path and
   the paths against each other (1e-9); ln gamma formulas; a -> 0 and I = 0 limits; products = exp(sum nu ln gamma).
+  Every real call of the oracle goes through `observed`: the arguments must be unchanged after the call (value-level snapshot of
+  lists, dicts, arrays, scalar quantities) and a second call on the SAME objects must reproduce value, exception class and warning;
+  the permuted ionic-strength call is built from the same molality objects, followed by the original order once more.
 """
 import math, struct, warnings
 from fractions import Fraction
@@ -97,6 +100,75 @@ def captured(f, *a, **k):
     return r, bool(hit)
 
 
+def snapshot(x):
+    """value-level structural copy of an argument or result (to detect in-place modification / irreproducibility)"""
+    import numpy as np
+    if isinstance(x, dict):
+        return ('dict', [(k, snapshot(v)) for k, v in x.items()])
+    if isinstance(x, (list, tuple)):
+        return (type(x).__name__, [snapshot(v) for v in x])
+    import quantities as pq
+    if isinstance(x, pq.Quantity):
+        return ('quantity', repr(np.array(x.magnitude, dtype=float).tolist()), x.dimensionality.string)
+    if isinstance(x, np.ndarray):
+        return ('ndarray', repr(x.tolist()))
+    if isinstance(x, SimpleNamespace):
+        return ('namespace', sorted((k, snapshot(v)) for k, v in vars(x).items()))
+    if isinstance(x, Exception):
+        return ('raised', type(x).__name__)
+    if isinstance(x, (int, float, complex, Fraction, str, bool, type(None))) or hasattr(x, 'dtype'):
+        return repr(x)
+    return ('object', id(x))          # units / constants name spaces: identity only
+
+
+def _first_diff(a, b, path='args'):
+    if type(a) != type(b) or not isinstance(a, (tuple, list)) or len(a) != len(b):
+        return '%s: %s -> %s' % (path, str(a)[:80], str(b)[:80])
+    for i, (x, y) in enumerate(zip(a, b)):
+        if x != y:
+            return _first_diff(x, y, '%s[%d]' % (path, i))
+    return path
+
+
+def observed(f, *a, **k):
+    """call f twice on the SAME argument objects: (result | exception, warned, problem).  problem is None unless the call changed
+    one of its arguments in place or the second call did not reproduce the first (value, exception class or warning)."""
+    s0 = snapshot((a, k))
+    r, w = captured(f, *a, **k)
+    s1 = snapshot((a, k))
+    if s1 != s0:
+        return r, w, 'the call modified its arguments in place (%s)' % _first_diff(s0, s1)
+    r2, w2 = captured(f, *a, **k)
+    if snapshot(r2) != snapshot(r) or w2 != w:
+        return r, w, ('a second call with the same argument objects gave %s%s, the first %s%s'
+                      % (str(snapshot(r2))[:80], ' + warning' if w2 else '', str(snapshot(r))[:80], ' + warning' if w else ''))
+    if snapshot((a, k)) != s0:
+        return r, w, 'the second call modified its arguments in place'
+    return r, w, None
+
+
+class Recorder:
+    """invoker used by the oracles: every real call goes through `observed`; the first problem is kept"""
+    def __init__(self):
+        self.problem = None
+
+    def cap(self, f, *a, **k):
+        r, w, p = observed(f, *a, **k)
+        if p and not self.problem:
+            self.problem = '%s: %s' % (getattr(f, '__name__', type(f).__name__), p)
+        return r, w
+
+    def __call__(self, f, *a, **k):
+        r, _ = self.cap(f, *a, **k)
+        if isinstance(r, Exception):
+            raise r
+        return r
+
+
+def _plain(f, *a, **k):
+    return f(*a, **k)
+
+
 class C18(Property):
     pid = 'C18'
     title = ('ionic strength = 1/2 sum b z^2 (charges from the formulas for a mapping), invariant under permutation and merging, linear, '
@@ -105,10 +177,10 @@ class C18(Property):
     props_module = 'ChemModel.Props.C18'
     build_modules = ('ChemModel.Gen.FnElectrolytes', 'ChemModel.Model.Electrolytes', 'ChemModel.Basic.Proto')
     driver = 'ChemModel/Driver/C18.lean'
-    n_quick, n_thorough = 3000, 40000
+    n_quick, n_thorough = 2000, 30000
     float_tol = 1e-9
     rule = ('ion sets of 1..8 entries with charges -4..4 (0 included), molalities log-uniform over 1e-9..1e3 (12 decades) as exact '
-            'decimals (Fractions), floats or quantities arrays in molal / mmol/kg / mol/g / umol/g; 45 % exactly neutral, 15 % inside or '
+            'decimals (Fractions), floats (dyadic in the neutral cases so that float sums are exact), one quantities array, a list of scalar Quantity objects or a dict of them, in molal / mmol/kg / mol/g / umol/g; 45 % exactly neutral, 15 % inside or '
             'next to the tolerance band (|net| = 0.3, 0.5, 2, 10 x tot*1e-14), rest not neutral; list form, dict form keyed by 37 formulas '
             '(states, prefixes, bracketed and repeated-sign charges), warn on/off; malformed: different lengths, no entries, empty mapping, '
             'keys with blanks / empty / unknown element; T 250..650 K, eps_r 5..100, rho 500..1500 kg/m3 (given in 4 density units), b0 '
@@ -153,7 +225,8 @@ class C18(Property):
 
     def _gen_is(self, rng):
         r = rng.random()
-        form = 'list' if r < 0.45 else 'dict' if r < 0.75 else 'units-list' if r < 0.9 else 'units-dict'
+        form = ('list' if r < 0.35 else 'dict' if r < 0.60 else 'units-list' if r < 0.72 else 'units-qlist' if r < 0.86
+                else 'units-dict')
         num = 'float' if form.startswith('units') else ('rat' if rng.random() < 0.6 else 'float')
         warn = rng.random() < 0.85
         c = {'kind': 'is', 'form': form, 'num': num, 'warn': warn}
@@ -166,12 +239,18 @@ class C18(Property):
             zs[1] = zs[0]
         bs = [Fraction(self._dec(rng, 1e-9, 1e3)) for _ in range(k)]
         mode = rng.random()
+        dyadic = num == 'float' and mode < 0.60
+        if dyadic:
+            # floats on which every sum of the code is exact (integers * 2^-j, one j per case): "neutral" is then exactly
+            # neutral in floating point too, so the oracle can state the warning for float / Quantity inputs as well
+            j = rng.randint(10, 30)
+            bs = [Fraction(rng.randint(1, 10 ** rng.randint(1, 6)), 2 ** j) for _ in range(k)]
         target = None
         if mode < 0.60 and k >= 2:
             # make it neutral (or nearly): solve for the last entry with a non-zero charge of the right sign
             net = sum(b * z for b, z in zip(bs[:-1], zs[:-1]))
             if net != 0:
-                zl = rng.choice([1, 2, 3, 4]) * (-1 if net > 0 else 1)
+                zl = rng.choice([1, 2, 4] if dyadic else [1, 2, 3, 4]) * (-1 if net > 0 else 1)
                 zs[-1] = zl
                 bs[-1] = -net / zl
                 tot = sum(b * z * z for b, z in zip(bs, zs))
@@ -180,9 +259,11 @@ class C18(Property):
                     delta = fac * tot * Fraction(1, 10 ** 14) / abs(zl)
                     bs[-1] = bs[-1] + (delta if rng.random() < 0.5 else -delta)
                     target = 'band*%s' % fac
+                    dyadic = False
                 else:
                     target = 'neutral'
         c['target'] = target or 'free'
+        c['dyadic'] = bool(dyadic)
         if form in ('dict', 'units-dict'):
             keys = []
             for i, z in enumerate(zs):
@@ -385,9 +466,8 @@ class C18(Property):
                 'post': base['m'] if c['which'] == 'B' else 1.0}
 
     # ================================================================================================ real code
-    def _call_is(self, c, b=None, z=None, keys=None):
-        """real ionic_strength on the case (optionally with other entries) -> (value | exception, warned)"""
-        from chempy.electrolytes import ionic_strength
+    def _build_is(self, c, b=None, z=None, keys=None):
+        """arguments of the real ionic_strength for the case (optionally with other entries): (molalities, charges | None)"""
         b = c['b'] if b is None else b
         z = c['z'] if z is None else z
         keys = c.get('keys') if keys is None else keys
@@ -397,16 +477,28 @@ class C18(Property):
             import numpy as np
             un = _unit(u, c['unit'])
             if 'dict' in c['form']:
-                arg = dict((k, v * un) for k, v in zip(keys, vals))
+                arg = dict((k, v * un) for k, v in zip(keys, vals))        # one scalar Quantity per key
+            elif c['form'] == 'units-qlist':
+                arg = [v * un for v in vals]                               # list of scalar Quantity objects
             else:
-                arg = np.array(vals) * un
+                arg = np.array(vals) * un                                  # one Quantity array
         elif 'dict' in c['form']:
             arg = dict(zip(keys, vals))
         else:
             arg = vals
-        if 'dict' in c['form']:
-            return captured(ionic_strength, arg, warn=c['warn'])
-        return captured(ionic_strength, arg, [int(x) for x in z], warn=c['warn'])
+        return arg, (None if 'dict' in c['form'] else [int(x) for x in z])
+
+    def _run_is(self, c, arg, charges, run=None):
+        from chempy.electrolytes import ionic_strength
+        run = run or (lambda f, *a, **k: captured(f, *a, **k) + (None,))
+        if charges is None:
+            return run(ionic_strength, arg, warn=c['warn'])
+        return run(ionic_strength, arg, charges, warn=c['warn'])
+
+    def _call_is(self, c, b=None, z=None, keys=None):
+        """real ionic_strength on the case (optionally with other entries) -> (value | exception, warned)"""
+        arg, ch = self._build_is(c, b, z, keys)
+        return self._run_is(c, arg, ch)[:2]
 
     def _mag(self, c, r):
         """magnitude of an ionic-strength result in the unit the molalities were given in"""
@@ -415,34 +507,34 @@ class C18(Property):
             return float((r / _unit(u, c['unit'])).simplified.magnitude)
         return r
 
-    def _real_ab(self, c, path=None):
+    def _real_ab(self, c, path=None, inv=_plain):
         from chempy import electrolytes as E
         from chempy.units import default_units as u, default_constants as consts
         f = getattr(E, c['which'])
         p = path or c['path']
         eps, T, rho, b0 = c['eps'], c['T'], c['rho'], c['b0']
         if p == 'num':
-            return float(f(eps, T, rho, b0))
+            return float(inv(f, eps, T, rho, b0))
         if p == 'const_plain':
-            return float(f(eps, T, rho, b0, constants=SimpleNamespace(**self.CONST_SI)))
+            return float(inv(f, eps, T, rho, b0, constants=SimpleNamespace(**self.CONST_SI)))
         Tq = T * u.K
         rq = (rho / RHO_UNITS[c['rho_unit']]) * _unit(u, c['rho_unit'])
         bq = (b0 / MOLAL_UNITS[c['b0_unit']]) * _unit(u, c['b0_unit'])
         if p == 'num_units':
-            r = f(eps, Tq, rq, bq, units=u)
+            r = inv(f, eps, Tq, rq, bq, units=u)
         elif p == 'num_units_b0':
-            r = f(eps, Tq, rq, units=u)
+            r = inv(f, eps, Tq, rq, units=u)
         elif p == 'const_units':
-            r = f(eps, Tq, rq, bq, constants=consts, units=u) if c['pass_units'] else f(eps, Tq, rq, bq, constants=consts)
+            r = inv(f, eps, Tq, rq, bq, constants=consts, units=u) if c['pass_units'] else inv(f, eps, Tq, rq, bq, constants=consts)
         else:
-            r = f(eps, Tq, rq, constants=consts, units=u)
+            r = inv(f, eps, Tq, rq, constants=consts, units=u)
         s = r.simplified
         want = 'dimensionless' if c['which'] == 'A' else '1/m'
         if s.dimensionality.string != want:
             raise TypeError('dimension of %s is %s, expected %s' % (c['which'], s.dimensionality.string, want))
         return float(s.magnitude)
 
-    def _real_lg(self, c, **over):
+    def _real_lg(self, c, inv=_plain, **over):
         from chempy import electrolytes as E
         d = dict(c)
         d.update(over)
@@ -453,19 +545,19 @@ class C18(Property):
         f = d['f']
         if d['defaults'] and not d['units']:
             if f == 'limiting':
-                r = E.limiting_log_gamma(IS, d['z'], d['A'])
+                r = inv(E.limiting_log_gamma, IS, d['z'], d['A'])
             elif f == 'extended':
-                r = (E.extended_log_gamma(IS, d['z'], d['a'], d['A'], d['B']) if d['C'] == 0.0
-                     else E.extended_log_gamma(IS, d['z'], d['a'], d['A'], d['B'], d['C']))
+                r = (inv(E.extended_log_gamma, IS, d['z'], d['a'], d['A'], d['B']) if d['C'] == 0.0
+                     else inv(E.extended_log_gamma, IS, d['z'], d['a'], d['A'], d['B'], d['C']))
             else:
-                r = E.davies_log_gamma(IS, d['z'], d['A']) if d['C'] == -0.3 else E.davies_log_gamma(IS, d['z'], d['A'], d['C'])
+                r = inv(E.davies_log_gamma, IS, d['z'], d['A']) if d['C'] == -0.3 else inv(E.davies_log_gamma, IS, d['z'], d['A'], d['C'])
         else:
             if f == 'limiting':
-                r = E.limiting_log_gamma(IS, d['z'], d['A'], I0=I0)
+                r = inv(E.limiting_log_gamma, IS, d['z'], d['A'], I0=I0)
             elif f == 'extended':
-                r = E.extended_log_gamma(IS, d['z'], d['a'], d['A'], d['B'], C=d['C'], I0=I0)
+                r = inv(E.extended_log_gamma, IS, d['z'], d['a'], d['A'], d['B'], C=d['C'], I0=I0)
             else:
-                r = E.davies_log_gamma(IS, d['z'], d['A'], C=d['C'], I0=I0)
+                r = inv(E.davies_log_gamma, IS, d['z'], d['A'], C=d['C'], I0=I0)
         if d['units']:
             s = r.simplified
             if s.dimensionality.string != 'dimensionless':
@@ -473,21 +565,21 @@ class C18(Property):
             return float(s.magnitude)
         return float(r)
 
-    def _real_ap(self, c):
+    def _real_ap(self, c, cap=captured):
         from chempy import electrolytes as E
         f = c['f']
         ints = lambda l: [int(x) for x in l]
         if f == 'lim':
-            return captured(E.limiting_activity_product, c['IS'], ints(c['stoich']), ints(c['z']), c['T'], c['eps'], c['rho'])
+            return cap(E.limiting_activity_product, c['IS'], ints(c['stoich']), ints(c['z']), c['T'], c['eps'], c['rho'])
         if f == 'ext':
-            return captured(E.extended_activity_product, c['IS'], ints(c['stoich']), ints(c['z']), c['a'], c['T'], c['eps'], c['rho'], c['C'])
+            return cap(E.extended_activity_product, c['IS'], ints(c['stoich']), ints(c['z']), c['a'], c['T'], c['eps'], c['rho'], c['C'])
         if f == 'dav':
-            return captured(E.davies_activity_product, c['IS'], ints(c['stoich']), ints(c['z']), c['a'], c['T'], c['eps'], c['rho'], c['C'])
+            return cap(E.davies_activity_product, c['IS'], ints(c['stoich']), ints(c['z']), c['a'], c['T'], c['eps'], c['rho'], c['C'])
         if f == 'cls_lim':
             obj = E.LimitingDebyeHuckelActivityProduct(ints(c['stoich']), ints(c['z']), c['T'], c['eps'], c['rho'])
         else:
             obj = E.ExtendedDebyeHuckelActivityProduct(ints(c['stoich']), ints(c['z']), c['a'], c['T'], c['eps'], c['rho'], c['C'])
-        return captured(obj, c['c'])
+        return cap(obj, c['c'])
 
     def impl(self, mc):
         kd = mc['kind']
@@ -580,7 +672,10 @@ class C18(Property):
         return getattr(self, '_oracle_' + kd)(c)
 
     def _oracle_is(self, c):
-        r, w = self._call_is(c)
+        arg, ch = self._build_is(c)
+        r, w, prob = self._run_is(c, arg, ch, observed)
+        if prob:
+            return 'ionic_strength: ' + prob
         if c['target'] == 'malformed':
             if not isinstance(r, Exception):
                 return 'ionic_strength accepted a malformed input (%s) and returned %r' % (c.get('mal'), r)
@@ -589,6 +684,7 @@ class C18(Property):
             return 'ionic_strength raised %s: %s' % (exc_name(r), str(r)[:80])
         zs = [ION_CHARGE[k] for k in c['keys']] if 'dict' in c['form'] else c['z']
         exact = c['num'] == 'rat'
+        exactish = exact or bool(c.get('dyadic'))       # float evaluation of the sums is exact as well
         bs = [fr(v) if exact else Fraction(float(v)) for v in c['b']]
         want = sum(b * z * z for b, z in zip(bs, zs)) / 2
         got = self._mag(c, r)
@@ -606,7 +702,7 @@ class C18(Property):
         net = sum(b * z for b, z in zip(bs, zs))
         tot = 2 * want
         if c['warn']:
-            if exact or abs(net) > Fraction(1, 10 ** 12) * tot:
+            if exactish or abs(net) > Fraction(1, 10 ** 12) * tot:
                 if net == 0 and w:
                     return 'neutral composition (net charge exactly 0) drew the warning'
                 if abs(net) >= Fraction(11, 10 ** 15) * tot and net != 0 and not w and all(b >= 0 for b in bs):
@@ -614,7 +710,6 @@ class C18(Property):
         elif w:
             return 'warning issued although warn=False'
         # invariances, on the real code
-        tol = 0 if exact else 1e-12
         k = len(zs)
 
         def cmp(name, r2, w2, factor=1):
@@ -626,15 +721,25 @@ class C18(Property):
                     return '%s: ionic strength %s instead of %s' % (name, g2, want * factor)
             elif not close(g2, want * factor, 1e-12, 0.0):
                 return '%s: ionic strength %r instead of %r' % (name, g2, float(want * factor))
-            if exact and w2 != w and not self._near_threshold(c):
+            if (exactish or abs(net) > Fraction(1, 10 ** 12) * tot) and w2 != w and not (exact and self._near_threshold(c)):
                 return '%s: warning %s instead of %s' % (name, w2, w)
             return None
 
         perm = c['perm']
         if sorted(perm) == list(range(k)) and k > 1:
-            kw = {'keys': [c['keys'][i] for i in perm]} if 'dict' in c['form'] else {'z': [zs[i] for i in perm]}
-            r2, w2 = self._call_is(c, b=[c['b'][i] for i in perm], **kw)
-            f = cmp('permuted entries', r2, w2)
+            # the permuted call is built from the SAME molality objects as the first call
+            if ch is None:
+                arg2, ch2 = dict((c['keys'][i], arg[c['keys'][i]]) for i in perm), None
+            elif c['form'] == 'units-list':
+                arg2, ch2 = arg[perm], [ch[i] for i in perm]
+            else:
+                arg2, ch2 = [arg[i] for i in perm], [ch[i] for i in perm]
+            r2, w2, prob = self._run_is(c, arg2, ch2, observed)
+            f = ('permuted entries: ' + prob) if prob else cmp('permuted entries (same molality objects)', r2, w2)
+            if f:
+                return f
+            r3, w3 = self._run_is(c, arg, ch)[:2]       # and the original order once more, after all these calls
+            f = cmp('repeated call after the permuted one', r3, w3)
             if f:
                 return f
         sc = fr(c['scale'])
@@ -662,9 +767,12 @@ class C18(Property):
     def _oracle_ab(self, c):
         tb = (A_textbook if c['which'] == 'A' else B_textbook)(c['eps'], c['T'], c['rho'], c['b0'])
         vals = {}
+        rec = Recorder()
         for p in ('num', 'const_plain', c['path']):
             try:
-                vals[p] = self._real_ab(c, p)
+                vals[p] = self._real_ab(c, p, rec)
+                if rec.problem:
+                    return rec.problem
             except Exception as e:
                 return '%s on path %s raised %s: %s' % (c['which'], p, exc_name(e), str(e)[:80])
             if not close(vals[p], tb, 1e-6, 0.0):
@@ -676,8 +784,11 @@ class C18(Property):
         return None
 
     def _oracle_lg(self, c):
+        rec = Recorder()
         try:
-            got = self._real_lg(c)
+            got = self._real_lg(c, rec)
+            if rec.problem:
+                return rec.problem
         except Exception as e:
             return '%s_log_gamma raised %s: %s' % (c['f'], exc_name(e), str(e)[:80])
         I = c['IS'] / c['I0']
@@ -699,7 +810,10 @@ class C18(Property):
         return None
 
     def _oracle_ap(self, c):
-        r, w = self._real_ap(c)
+        rec = Recorder()
+        r, w = self._real_ap(c, rec.cap)
+        if rec.problem:
+            return rec.problem
         k = len(c['stoich'])
         enough = len(c['z']) >= k and (c['f'] not in ('ext', 'cls_ext') or len(c['a']) >= k)
         if not enough:
@@ -720,19 +834,21 @@ class C18(Property):
                 return 'class call on a neutral composition drew the neutrality warning'
             if abs(net) > 1e-12 * 2 * IS and not w:
                 return 'class call on a non-neutral composition (net %r) drew no warning' % net
-        tot = 0.0
+        tot, mag = 0.0, 0.0
         for i in range(k):
             if c['f'] in ('lim', 'cls_lim'):
-                tot += c['stoich'][i] * lg_limiting(IS, c['z'][i], A)
+                t = c['stoich'][i] * lg_limiting(IS, c['z'][i], A)
             elif c['f'] in ('ext', 'cls_ext'):
-                tot += c['stoich'][i] * lg_extended(IS, c['z'][i], c['a'][i], A, B, c['C'])
+                t = c['stoich'][i] * lg_extended(IS, c['z'][i], c['a'][i], A, B, c['C'])
             else:
-                tot += c['stoich'][i] * lg_davies(IS, c['z'][i], A, c['C'])
+                t = c['stoich'][i] * lg_davies(IS, c['z'][i], A, c['C'])
+            tot += t
+            mag += abs(t)          # the typed constants differ from the library's by up to 6e-8: error of the sum ~ 1e-7 * mag
         try:
             want = math.exp(tot)
         except OverflowError:
             want = float('inf')
-        if not close(float(r), want, min(0.5, 1e-6 * max(1.0, abs(tot))), 0.0):
+        if not close(float(r), want, min(0.5, 1e-6 * max(1.0, mag)), 0.0):
             return '%s activity product is %r, exp(sum nu ln gamma) = %r' % (c['f'], float(r), want)
         return None
 
